@@ -738,15 +738,17 @@ def inside_inner_loop(outer, node):
     return False
 
 
-def run_gvn_invalidate(res, ast, rule="GVN-INVALIDATE"):
-    """bc::CodeGen::emit_block, the value-number table around a nested block.  emit_block is evaluated (lib/receval.py) on a block holding one
-    Loop / If instruction, the recursive call scripted: it records the table it sees on entry and leaves behind what a nested block leaves
-    (a load of another cell, a sum of two inner temporaries, a constant, and the written cell re-bound to an inner temporary).  The entries
-    stand for classes (outer load of a cell the block writes / does not write, outer constant, outer sum; inner load, inner sum, inner
-    constant), the scenarios enumerate {If, Loop, Loop known to run once} x {block shifts the pointer or not} x {fusion, Scan form}."""
+def run_gvn_invalidate(res, ast, rule="GVN-INVALIDATE", live_rule="LIVE-OUTER"):
+    """bc::CodeGen::emit_block, the bookkeeping around a nested block.  emit_block is evaluated (lib/receval.py) on a block holding one
+    Loop / If instruction, the recursive call scripted: it records what it sees on entry (value-number table, current_start) and leaves behind
+    what a nested block leaves (a load of another cell, a sum of two inner temporaries, a constant, the written cell re-bound to an inner
+    temporary; four outer values used by the body and registered in outer_accessed).  The entries stand for classes (outer load of a cell the
+    block writes / does not write, outer constant, outer sum; inner load, inner sum, inner constant; values created before / after the start of
+    the enclosing loop), the scenarios enumerate {If, Loop, Loop known to run once} x {block shifts the pointer: no / statically / only through a
+    nested loop} x {fusion, Scan form}."""
     import receval, itereval
     from receval import Rec, Variant, MapV
-    from rusteval import Env as _Env, ReturnEx as _Ret, Unanalysable as _Un, Reached as _Re, NONE as _NONE, UNIT as _UNIT
+    from rusteval import Env as _Env, ReturnEx as _Ret, Unanalysable as _Un, Reached as _Re, NONE as _NONE, UNIT as _UNIT, Some as _Some
     res.rule(rule, "bc::CodeGen::emit_block: before a loop body the value numbers of the cells the body writes are forgotten (all of them when the body shifts); "
              "after a block that shifts, all; after a block that may be skipped, the cells it writes and every load or computed value created inside it "
              "(a temporary defined only if the block ran must not be reused after it); the nested call gets the nested block and its own analysis",
@@ -759,24 +761,32 @@ def run_gvn_invalidate(res, ast, rule="GVN-INVALIDATE"):
     G = lambda n, *f: itereval.Ctor("GvnExpr::" + n, list(f))
     W, U, V2 = 5, 6, 7
     ps = [p["pat"]["name"] for p in fn["sig"]["inputs"] if p["t"] == "Arg" and p["pat"]["t"] == "PIdent"]
-    scen = [("If", False, False, True, False), ("If", False, True, True, False), ("Loop", False, False, True, False), ("Loop", False, True, True, False),
-            ("Loop", True, False, True, False), ("Loop", True, True, True, False), ("Loop", False, True, True, True), ("If", False, False, False, False),
-            ("Loop", False, False, False, False), ("Loop", False, True, False, True)]
-    for kind, once, has_shift, fuse, inner_empty in scen:
-        tag = f"{kind}{' (runs at least once)' if once else ''}, body {'shifts' if has_shift else 'does not shift'}, fuse={str(fuse).lower()}{', empty body' if inner_empty else ''}"
-        E = [G("Mem", W), G("Mem", U), G("Imm", 7), G("Add", 0, 1)]
+    # (kind, once, has_shift, static shift of the block, fuse, empty body)
+    scen = [("If", False, False, 0, True, False), ("If", False, True, 1, True, False), ("If", False, True, 0, True, False),
+            ("Loop", False, False, 0, True, False), ("Loop", False, True, 1, True, False), ("Loop", False, True, 0, True, False),
+            ("Loop", True, False, 0, True, False), ("Loop", True, True, 1, True, False), ("Loop", True, True, 0, True, False),
+            ("Loop", False, True, 1, True, True), ("If", False, False, 0, False, False),
+            ("Loop", False, False, 0, False, False), ("Loop", False, True, 1, False, True)]
+    ENTRY_START = 1
+    for kind, once, has_shift, shift, fuse, inner_empty in scen:
+        how = "does not shift" if not has_shift else "shifts" if shift else "shifts through a nested loop only"
+        tag = f"{kind}{' (runs at least once)' if once else ''}, body {how}, fuse={str(fuse).lower()}{', empty body' if inner_empty else ''}"
+        E = [G("Mem", W), G("Mem", U), G("Imm", 7), G("Add", 0, 1), G("Imm", 20), G("Imm", 21)]
+        created = [0, 0, 0, 0, 2, 2]          # values 0-3 exist since before the enclosing loop's start (1), 4 and 5 were created inside it
         mk = lambda c: Rec(created=c, first_use=_NONE, last_use=_NONE, num_uses=0)
-        me = Rec(values=MapV({e: i for i, e in enumerate(E)}), exprs=list(E), outer_accessed=[], insts=[itereval.Ctor("Instr::Noop", [])] * 3,
-                 ranges=[mk(0) for _ in E], current_start=1, writes=MapV())
-        inner = Rec(insts=[] if inner_empty else [Variant("ir::Instr::Output", {"src": U})], shift=1 if has_shift else 0)
+        me = Rec(values=MapV({e: i for i, e in enumerate(E)}), exprs=list(E), outer_accessed=[3], insts=[itereval.Ctor("Instr::Noop", [])] * 3,
+                 ranges=[mk(c) for c in created], current_start=ENTRY_START, writes=MapV())
+        inner = Rec(insts=[] if inner_empty else [Variant("ir::Instr::Output", {"src": U})], shift=shift)
         inst = Variant("ir::Instr::Loop", {"cond": 0, "block": inner, "once": once}) if kind == "Loop" else Variant("ir::Instr::If", {"cond": 0, "block": inner})
         sub = Rec(has_shift=has_shift, writes=[] if has_shift else [W], sub_anal=[], min_accessed=0, max_accessed=9)
         anal = Rec(has_shift=False, writes=[W], sub_anal=[sub], min_accessed=0, max_accessed=9)
         log = {"calls": 0}
 
-        def nested(it, blk, an, fz, me=me, log=log, inner=inner, sub=sub):
+        def nested(it, blk, an, fz, me=me, log=log, inner=inner, sub=sub, mk=mk):
             log["calls"] += 1
             log["entry"] = dict(me["values"])
+            log["entry_start"] = me["current_start"]
+            log["entry_len"] = len(me["insts"])
             log["args_ok"] = blk is inner and an is sub
             n0 = len(me["exprs"])
             new = [G("Mem", V2), G("Add", n0, n0), G("Imm", 9)]
@@ -786,11 +796,18 @@ def run_gvn_invalidate(res, ast, rule="GVN-INVALIDATE"):
                 me["ranges"].append(mk(len(me["insts"])))
             me["values"][G("Mem", W)] = n0 + 1          # the body writes W: the cell is re-bound to an inner temporary
             me["insts"].append(itereval.Ctor("Instr::Out", [U]))
+            # the body used four values from outside: each was met for the first time inside this block and registered.  (Not when the body
+            # shifts the pointer: the table is empty then, so nothing from outside can be named inside - an infeasible combination.)
+            log["used_outer"] = not an["has_shift"]
+            if log["used_outer"]:
+                for v_ in (4, 0, 1, 5):
+                    me["ranges"][v_]["last_use"] = _Some(len(me["insts"]) - 1)
+                    me["outer_accessed"].append(v_)
             log["inner"] = new
             return _UNIT
         it = receval.RecInterp(ast, BC, me, scripted={"emit_block": nested})
         env = _Env()
-        probs = []
+        probs, lprobs = [], []
         try:
             if len(ps) != 3:
                 raise _Un("emit_block(&mut self, block, analysis, fuse): unexpected parameters")
@@ -803,8 +820,8 @@ def run_gvn_invalidate(res, ast, rule="GVN-INVALIDATE"):
         except (_Un, _Re, KeyError, TypeError, IndexError, AttributeError) as u_:
             probs.append(f"cannot be analysed (fail closed): {u_}")
         res.evaluations += 1
+        scan_form = fuse and kind == "Loop" and inner_empty
         if not probs:
-            scan_form = fuse and kind == "Loop" and inner_empty
             if not scan_form:
                 if log["calls"] != 1:
                     probs.append(f"the nested block is emitted {log['calls']} times")
@@ -825,4 +842,35 @@ def run_gvn_invalidate(res, ast, rule="GVN-INVALIDATE"):
                 if left:
                     probs.append(f"after a block that may be skipped value numbers created inside it are still known ({', '.join(map(repr, left))}): "
                                  "their temporaries are undefined when the block did not run")
+            # live ranges: the loop start seen by the body, its restoration, and the extension at the end of a loop
+            if log.get("entry") is not None:
+                if kind == "Loop" and log["entry_start"] != log["entry_len"]:
+                    lprobs.append(f"inside a loop body current_start is {log['entry_start']}, the body starts at instruction {log['entry_len']}")
+                if kind == "If" and log["entry_start"] != ENTRY_START:
+                    lprobs.append("an If block moves current_start: values used inside it are then taken for values of an enclosing loop that does not exist "
+                                  "(nothing keeps them alive over the real loop's back edge)")
+                if me["current_start"] != ENTRY_START:
+                    lprobs.append(f"current_start is {me['current_start']} after the block, it was {ENTRY_START} before")
+                oa = sorted(me["outer_accessed"])
+                if not log.get("used_outer"):
+                    if oa != [3]:
+                        lprobs.append(f"outer_accessed holds {oa} after a block that used nothing from outside, it held [3] before")
+                elif kind == "If":
+                    if oa != [0, 1, 3, 4, 5]:
+                        lprobs.append(f"after an If block outer_accessed holds {oa}; the values its body used ([0, 1, 4, 5]) belong to the enclosing loop and must stay registered")
+                else:
+                    br = [i_ for i_, x_ in enumerate(me["insts"]) if isinstance(x_, itereval.Ctor) and x_.name.endswith("::BrNZ")]
+                    if len(br) != 1:
+                        lprobs.append(f"{len(br)} backward branches are emitted for one loop")
+                    else:
+                        for v_ in (4, 5):
+                            lu = me["ranges"][v_]["last_use"]
+                            if not (lu.some and lu.v == br[0]):
+                                lprobs.append(f"a value created inside the enclosing loop and used by this loop's body is live until {lu!r}, it must stay live to the back edge (instruction {br[0]})")
+                                break
+                        if oa != [0, 1, 3]:
+                            lprobs.append(f"after the loop outer_accessed holds {oa}; values older than the enclosing loop ([0, 1], and [3] from before) must stay registered, "
+                                          "the extended ones ([4, 5]) must be removed")
         res.check(not probs, rule, f"{BC}|emit_block|{tag}", where(BC, fn, "emit_block"), f"{tag}: " + "; ".join(probs[:2]))
+        if not scan_form and not any(p_.startswith("cannot be analysed") for p_ in probs):
+            res.check(not lprobs, live_rule, f"{BC}|emit_block|scenario|{tag}", where(BC, fn, "emit_block"), f"{tag}: " + "; ".join(lprobs[:2]))
